@@ -14,7 +14,7 @@ let run () =
     | "PWV" :: steps :: st :: bad ->
         let ((p, (n1, r1)), l) = pwv_run (nat_of_int (int_of_string steps)) (z st) (List.map z bad) in
         Printf.printf "pwv %d | %d %d | %d%s\n" (int_of_z p) (int_of_nat n1) (int_of_z r1) (List.length l) (String.concat "" (List.map (fun x -> " " ^ string_of_int (int_of_z x)) l))
-    | "CRRT" :: goal :: thr :: mind :: _maxd :: k :: iters :: tseed :: bias :: rest ->
+    | (("CRRT" | "CRRTI") as cmd) :: goal :: thr :: mind :: _maxd :: k :: iters :: tseed :: bias :: rest ->
         let rest = ref rest in
         let next () = match !rest with x :: t -> rest := t; x | [] -> "0" in
         let block () = let _ = next () in let n = int_of_string (next ()) in List.init n (fun _ -> next ()) in
@@ -26,8 +26,8 @@ let run () =
         let rec groups l = if l = [] then [] else
           (let rec take n l = if n = 0 then ([], l) else (match l with x :: t -> let (a, b) = take (n - 1) t in (x :: a, b) | [] -> ([], [])) in
            let (g, r) = take k l in match g with f :: more -> (f, more) :: groups r | [] -> []) in
-        let (tree, rep) = crrt_run bad (z goal) (z thr) (nat_of_int (int_of_string mind)) starts hits samples (groups us) in
-        Printf.printf "crrt %d;" (List.length tree);
+        let (tree, rep) = (if cmd = "CRRTI" then crrti_run else crrt_run) bad (z goal) (z thr) (nat_of_int (int_of_string mind)) starts hits samples (groups us) in
+        Printf.printf "%s %d;" (if cmd = "CRRTI" then "crrti" else "crrt") (List.length tree);
         List.iter (fun (x, p) -> match p with
           | Some (pi, (u, n)) -> Printf.printf " %d %d %d %d;" (int_of_z x) (int_of_nat pi) (int_of_z u) (int_of_nat n)
           | None -> Printf.printf " %d -1;" (int_of_z x)) tree;
